@@ -288,6 +288,9 @@ type modTarget struct {
 }
 
 func regionHasPrefix(name, prefix string) bool {
+	if prefix == "" {
+		return true // `fresh()`: every region, restricted by the target's match to cells allocated in this call
+	}
 	if name == prefix {
 		return true
 	}
